@@ -27,8 +27,10 @@ def features(case, fmt):
             "has_sq": "'" in w, "has_dq": '"' in w, "has_bs": "\\" in w, "has_nl": "\n" in w,
             "has_sq_or_bs": "'" in w or "\\" in w,
             "has_semicolon_newline": ";\n" in w, "has_bs_before_backtick": "\\`" in w,
-            # looks like an already quoted literal whose closing quote is escaped by a backslash ('\' or "\")
-            "quoted_lookalike_escaped_closing_quote": len(w) >= 3 and w[0] in "'\"" and w[-1] == w[0] and w[-2] == "\\" and (len(w) - len(w[:-1].rstrip("\\")) - 0) % 2 == 0,
+            # looks like an already quoted literal ('...' or "...") with a backslash directly before a quote character (also the closing one):
+            # whether that quote is escaped depends on the dialect, sqlx.IsQuoted decides it without knowing the dialect
+            "quoted_lookalike_backslash_before_quote": len(w) >= 3 and w[0] in "'\"" and w[-1] == w[0] and ("\\" + w[0]) in w[1:],
+            "newline_then_comment_marker": "\n--" in w,
             "content": w}
 
 
